@@ -20,7 +20,7 @@ LEVEL = {
     "C05": ("Builtins.tla states what every built-in name denotes (from C / stdint / Windows SDK meaning), Codec.tla the encodings (two's complement on limbs, UTF-16 with surrogates, LEB128 with canonical form); MC_Scalar proves decode/encode inverse, the two's-complement value, and the per-byte LEB machine equal to the closed form exhaustively over boundary alphabets with an endianness switch between read and write; Trace_Scalar is a state machine whose only state is the byte order in force and judges recorded histories New/SetEndian/Read/Write on real cstruct objects, over every name in cs.typedefs and a structure compiled before the switches.",
             "IEEE-754 numeric interpretation is done by the projection (struct); @ and = are outside the domain."),
     "C06": ("MC_Bits is the BitBuffer as a state machine (one action per branch of read/write/flush) proved equal to the declarative partition rule and to Codec!Decode/Enc for all non-straddling width sequences (<=4 fields, unit sizes 1/2/4, 4 contents, both endiannesses); the enumerated bit-field family (13 storage types incl. signed/char/enum/flag/int24/48, neighbours, straddling sequences that must be rejected) and random definitions run through both readers and the writer and are judged by Trace_Codec.",
-            "bit-field overflow on write is outside the property (values that fit)."),
+            "values that do not fit the bit width must be refused (C01 owns that clause; finding F36 repaired)."),
     "C07": ("Array semantics (fixed / expression / null-terminated / to end of stream, C-order nesting, zero test per element kind, refusal of wrong counts) are part of Codec.tla Decode/Enc/Fits; MC_Codec proves round trip and fidelity for the array members of the universe; array-heavy random definitions over every element kind and length form are run through both readers and judged by TLC, and constructed values with a wrong element count must be refused.",
             "length expressions are range-guarded (|v| < 2^24); identifier shadowing of a constant by a field is finding F9."),
     "C08": ("MC_Cuts proves on the specification, for every case, input and EVERY cut point, that a shortened input yields EOF, the complete value, or a lax outcome (trailing padding / [EOF] arrays) - never another value; the real library is then run on every cut of accepted inputs and with every single stream fault of the clean run injected through a faulty stream object (short read by 1, 2 or all bytes; raising), both readers, followed by clean parses (no residue); Trace_Codec judges each outcome (clauses status, value, fabricated, fault-status).",
